@@ -43,11 +43,16 @@ import (
 //	    C:<dotted.key>=<value>  content of a ./config.yaml in the working directory.  It is the default file:
 //	       read when nothing is selected, a decoy when another file is selected (when the selected file IS
 //	       ./config.yaml the F:/Q: items are its content and C: items are dropped)
+//	    T:<relative path>=<empty|dir>  something that EXISTS in the working directory of the process (an empty
+//	       file or a directory), e.g. at db.sqlite.file_path; the model's file system oracle answers "found"
+//	       for exactly these paths
 //	    D:<ext>:<dotted.key>=<value>  a DECOY: a sibling of the selected file in the same directory with the
 //	       same stem and extension <ext> (json toml yaml yml properties env ini ...) that assigns the key.
 //	       Decoys are not the selected file: they must have no effect at all.
 //	    obs: "k=v;k=v;...;validate=<verdict>" for every leaf key in table order, or LOAD-ERROR
 //	validate;engine=<e>;sqlite=<path>;host=<h>;port=<n>;user=<u>;dbname=<d>;prepared=<0|1>;ppath=<0|1>;stat=<file|dir|missing|notdir|toolong>
+//	    optional sqstat=<none|empty|dir|db>: what exists at the (non-empty) db.sqlite.file_path - nothing, an empty
+//	    file, a directory, a real SQLite database created by database.Init (schema + genesis header)
 //	validate;nil
 //	    obs: OK | ERR <class>
 //	docdefault;F:<dotted.key>=<value>      (one per key of config.example.yaml: the DOCUMENTED default)
@@ -400,7 +405,7 @@ func c20Load(dir string, items []c20Item, types map[string]string) string {
 	haveFile := false
 	how, selExt, selStem, where := "", "", "", ""
 	cwdRoot, seenC, haveCwd := &yamlNode{}, map[string]bool{}, false
-	var flatSel [][2]string
+	var flatSel, touch [][2]string
 	type c20Decoy struct {
 		root *yamlNode
 		flat [][2]string
@@ -431,6 +436,11 @@ func c20Load(dir string, items []c20Item, types map[string]string) string {
 			if selExt == "" {
 				selExt = it.name
 			}
+		case "T":
+			if it.name == "" || filepath.IsAbs(it.name) || strings.Contains(it.name, "..") {
+				continue
+			}
+			touch = append(touch, [2]string{it.name, it.val})
 		case "N":
 			if selStem == "" && it.name != "" && !strings.ContainsAny(it.name, "/\x00") {
 				selStem = it.name
@@ -528,6 +538,21 @@ func c20Load(dir string, items []c20Item, types map[string]string) string {
 			return "HARNESS-ERROR " + err.Error()
 		}
 	}
+	for _, t := range touch {
+		p := filepath.Join(cwd, t[0])
+		if _, err := os.Lstat(p); err == nil {
+			continue
+		}
+		var err error
+		if t[1] == "dir" {
+			err = os.MkdirAll(p, 0o755)
+		} else if err = os.MkdirAll(filepath.Dir(p), 0o755); err == nil {
+			err = os.WriteFile(p, nil, 0o644)
+		}
+		if err != nil {
+			return "HARNESS-ERROR " + err.Error()
+		}
+	}
 	exe, err := os.Executable()
 	if err != nil {
 		return "HARNESS-ERROR " + err.Error()
@@ -549,6 +574,30 @@ func c20Load(dir string, items []c20Item, types map[string]string) string {
 	return strings.NewReplacer("\n", ";", "\t", " ").Replace(string(eff))
 }
 
+// c20RealDB is a real SQLite database (schema and genesis header, made by database.Init through the shared
+// fixture) for the sqstat=db cases; created once per run, only looked at.
+var c20RealDB, c20RealDBErr string
+
+func c20MakeRealDB(dir string) {
+	defer func() {
+		if r := recover(); r != nil {
+			c20RealDBErr = fmt.Sprint(r)
+		}
+	}()
+	st, err := NewStack(StackOpts{Dir: dir})
+	if err != nil {
+		c20RealDBErr = err.Error()
+		return
+	}
+	p := st.DBPath
+	st.Close()
+	if fi, err := os.Stat(p); err != nil || fi.Size() == 0 {
+		c20RealDBErr = "database file missing or empty after database.Init"
+		return
+	}
+	c20RealDB = p
+}
+
 // c20Validate runs DbConfig.Validate in process on the described section.
 func c20Validate(dir string, items []c20Item) string {
 	_ = os.RemoveAll(dir)
@@ -559,9 +608,11 @@ func c20Validate(dir string, items []c20Item) string {
 	var db *config.DbConfig
 	nilCfg := false
 	d := &config.DbConfig{}
-	ppath, stat := false, "missing"
+	ppath, stat, sqstat := false, "missing", ""
 	for _, it := range items {
 		switch it.name {
+		case "sqstat":
+			sqstat = it.val
 		case "nil":
 			nilCfg = true
 		case "engine":
@@ -601,6 +652,23 @@ func c20Validate(dir string, items []c20Item) string {
 			d.PreparedDbFilePath = filepath.Join(dir, strings.Repeat("n", 300)+".csv.gz") // ENAMETOOLONG
 		default:
 			d.PreparedDbFilePath = filepath.Join(dir, "no-such-file.csv.gz")
+		}
+	}
+	if d.SQLite.FilePath != "" && sqstat != "" {
+		switch sqstat {
+		case "empty":
+			d.SQLite.FilePath = filepath.Join(dir, "empty.db")
+			_ = os.WriteFile(d.SQLite.FilePath, nil, 0o644)
+		case "dir":
+			d.SQLite.FilePath = filepath.Join(dir, "a-directory.db")
+			_ = os.MkdirAll(d.SQLite.FilePath, 0o755)
+		case "db":
+			if c20RealDB == "" {
+				return "HARNESS-ERROR no real database: " + c20RealDBErr
+			}
+			d.SQLite.FilePath = c20RealDB
+		default:
+			d.SQLite.FilePath = filepath.Join(dir, "no-such.db")
 		}
 	}
 	if !nilCfg {
@@ -654,6 +722,7 @@ func c20Pool(k c20Key, thorough bool) []string {
 		p := []string{"1m30s", "36h0m0s"}
 		if thorough {
 			p = append(p, "90s", "24h", "45m", "1h1m1s", "0s", "100000h", "61m", "3600s")
+			p = append(p, c20DurationSpellings...)
 		}
 		return p
 	case "enum":
@@ -681,6 +750,15 @@ func c20Pool(k c20Key, thorough bool) []string {
 	return p
 }
 
+// spellings time.ParseDuration accepts beyond <digits><h|m|s>: sub-second units, fractions, signs, the bare 0,
+// several segments, the int64 boundaries; the effective value is the Duration's String()
+var c20DurationSpellings = []string{"500ms", "1.5h", "2m30.5s", "-5m", "+3s", "1h0.5m", "100us", "250\u00b5s", "250\u03bcs", "7ns",
+	"0", "-0", "1500ms", ".5s", "1.s", "1h1h", "0.000001s", "1.5us", "2h45m30.25s", "999999999ns", "1000000000ns", "-1ns",
+	"2562047h47m16.854775807s", "-2562047h47m16.854775808s", "1m1ms", "3.000s", "0.5ms", "12h30m"}
+
+// ... and spellings it refuses
+var c20DurationIllTyped = []string{"1d", "5 m", "1h-", "1e3s", ".s", "1..5s", "s", "-", "+", "", "1h 30m", "2562047h47m16.854775808s", "1.5", "5M", "1H", "ms5", "3d12h"}
+
 func c20IllTyped(k c20Key) []string {
 	switch k.Type {
 	case "bool":
@@ -690,7 +768,7 @@ func c20IllTyped(k c20Key) []string {
 	case "uint16":
 		return []string{"65536", "-1", "x"}
 	case "duration":
-		return []string{"abc", "10", "5 parsecs"}
+		return append([]string{"abc", "10", "5 parsecs"}, c20DurationIllTyped...)
 	}
 	if k.Key == "logging.level" {
 		return []string{"verbose", "128"}
@@ -752,7 +830,9 @@ func runC20(c *Ctx) error {
 					add("file-cwd:"+k.Type, "load;F:"+k.Key+"="+v+";A:cwd")
 				}
 				for _, v := range c20IllTyped(k) {
-					add("ill-typed-env:"+k.Type, "load;E:"+ev+"="+v)
+					if v != "" { // an empty variable is not set at all (known finding env-empty-ignored), not an ill-typed value
+						add("ill-typed-env:"+k.Type, "load;E:"+ev+"="+v)
+					}
 					add("ill-typed-file:"+k.Type, "load;Q:"+k.Key+"="+v)
 				}
 				// near-miss variable names must not reach the key
@@ -890,6 +970,26 @@ func runC20(c *Ctx) error {
 		// the documented defaults: what config.example.yaml says about each key
 		for _, it := range c20ExampleItems(types) {
 			add("documented-default", "docdefault;"+it)
+		}
+		// duration spellings (quick and thorough): every spelling through the environment, the file (typed) and the
+		// file (quoted), and under an environment-over-file pair of two different spellings
+		for _, k := range keys {
+			if k.Type != "duration" {
+				continue
+			}
+			ev := c20EnvName(k.Key)
+			for i, v := range c20DurationSpellings {
+				w := c20DurationSpellings[(i+1)%len(c20DurationSpellings)]
+				add("duration-spelling:env", "load;E:"+ev+"="+v)
+				add("duration-spelling:file", "load;F:"+k.Key+"="+v)
+				add("duration-spelling:env+file", "load;E:"+ev+"="+v+";Q:"+k.Key+"="+w)
+			}
+			for _, v := range c20DurationIllTyped {
+				if v != "" { // an empty variable is not set (known finding); an empty file value is tried below
+					add("duration-ill-typed:env", "load;E:"+ev+"="+v)
+				}
+				add("duration-ill-typed:file", "load;Q:"+k.Key+"="+v)
+			}
 		}
 		// CROSS-KEY: the effective value of a key must not depend on the value of ANOTHER key.  For every value of
 		// the mode-like keys (logging.level over all zerolog levels, logging.format, every bool key both ways,
@@ -1033,6 +1133,34 @@ func runC20(c *Ctx) error {
 				}
 			}
 		}
+		// what exists at db.sqlite.file_path x what exists at the prepared path x prepared x engine: the verdict
+		// must not depend on the former
+		for _, e := range []string{"sqlite", "postgres", "mysql", ""} {
+			for _, sq := range []string{"none", "empty", "dir", "db"} {
+				for _, prep := range []string{"prepared=0;ppath=1;stat=missing", "prepared=0;ppath=0", "prepared=1;ppath=0", "prepared=1;ppath=1;stat=missing",
+					"prepared=1;ppath=1;stat=file", "prepared=1;ppath=1;stat=dir", "prepared=1;ppath=1;stat=notdir"} {
+					add("validate:sqlite-path-exists:"+sq, "validate;engine="+e+";sqlite=./data/blockheaders.db;sqstat="+sq+";host=h;port=5432;user=u;dbname=d;"+prep)
+				}
+			}
+		}
+		// ... the same through a whole start-up: something exists at db.sqlite.file_path (default path, a path from
+		// the file, a path from the environment), the prepared file is missing / its path empty / it exists
+		for _, sqp := range []string{"", "F:db.sqlite.file_path=my/headers.db", "E:BHS_DB_SQLITE_FILE_PATH=envdir/x.db"} {
+			tp := "data/blockheaders.db"
+			if sqp != "" {
+				tp = sqp[strings.Index(sqp, "=")+1:]
+			}
+			for _, kind := range []string{"empty", "dir"} {
+				for _, prep := range []string{"F:db.prepared_db=true", "E:BHS_DB_PREPARED_DB=true", "F:db.prepared_db=true;F:db.prepared_db_file_path=",
+					"F:db.prepared_db=true;F:db.prepared_db_file_path=imp/h.csv.gz;T:imp/h.csv.gz=empty", "F:db.prepared_db=false", "F:db.prepared_db=true;F:db.engine=postgres"} {
+					in := "load;" + prep
+					if sqp != "" {
+						in += ";" + sqp
+					}
+					add("load:sqlite-path-exists:"+kind, in+";T:"+tp+"="+kind)
+				}
+			}
+		}
 		// ... and random sections
 		for i, n := 0, c.Pick(100, 3000); i < n; i++ {
 			pick := func(vs ...string) string { return vs[c.Rng.Intn(len(vs))] }
@@ -1044,6 +1172,16 @@ func runC20(c *Ctx) error {
 		}
 	}
 
+	for _, j := range jobs {
+		if strings.HasPrefix(j.input, "validate;") && strings.Contains(j.input, "sqstat=db") {
+			d := c.TmpDir("c20realdb")
+			if abs, err := filepath.Abs(d); err == nil {
+				d = abs
+			}
+			c20MakeRealDB(d)
+			break
+		}
+	}
 	// run: load cases in parallel subprocesses, validate cases in process
 	obs := make([]string, len(jobs))
 	var wg sync.WaitGroup
